@@ -7,6 +7,7 @@ seeds = [
  ("flow", "@kernel void k ( const int N , int * a ) { for ( int o = 0 ; o < N ; ++ o ; @outer ) { for ( int i = 0 ; i < 4 ; ++ i ; @inner ) { int j = 0 ; while ( j < 3 ) { if ( j == 1 ) { break ; } ++ j ; } for ( int m = 0 ; m < 2 ; ++ m ) { if ( m ) continue ; switch ( i ) { case 0 : a [ o ] = 'a' ; break ; default : a [ o ] = sizeof ( i ) ; } } } } }"),
  ("variadic", '#define FIRST( x , ... ) x NL #define PICK( a , b , ... ) b NL #define FWD( ... ) PICK( __VA_ARGS__ ) NL #define ADD( a , b ) ( ( a ) + ( b ) ) NL #define TWICE( f , v ) f( f( v , 1 ) , 1 ) NL @kernel void k ( const int N , float * a ) { for ( int o = 0 ; o < N ; ++ o ; @outer ) { for ( int i = 0 ; i < 4 ; ++ i ; @inner ) { a [ FIRST( i ) ] = PICK( 1 , 2 ) ; a [ FIRST( i , o ) ] = PICK( 1 , 2 , 3 ) + FWD( 4 , 5 , 6 ) ; a [ o ] = ADD( FIRST( 1 , 2 , 3 ) , TWICE( ADD , i ) ) ; } } }'),
  ("cond", '#define A 1 NL #define B A NL #define C ( B + 1 ) NL #if C > 1 NL #define D 4 NL #elif C == 1 NL #define D 2 NL #else NL #define D 1 NL #endif NL #undef A NL #define A 2 NL #ifdef D NL #ifndef E NL #define E D NL #endif NL #endif NL #if defined ( E ) && ! defined ( F ) NL #define F( x ) ( x * E ) NL #endif NL @kernel void k ( const int N , float * a ) { for ( int o = 0 ; o < N ; ++ o ; @outer ) { for ( int i = 0 ; i < E ; ++ i ; @inner ) { a [ i ] = A + B + C + F( o ) ; } } }'),
+ ("stmts", '#pragma once NL enum E { E0 , E1 = 2 } ; typedef struct { int a ; float b ; } S ; void helper ( float * p , const int n ) { if ( n < 0 ) { return ; } p [ 0 ] = 1 ; return ; } int twice ( const int v ) { return ( v , 2 * v ) ; } @kernel void k ( const int N , float * a ) { for ( int o = 0 ; o < N ; ++ o ; @outer ) { for ( int i = 0 ; i < 4 ; ++ i ; @inner ) { int j ; ; j = E1 ; do { ++ j ; } while ( j < 2 ) ; while ( j > 0 ) { -- j ; } switch ( i ) { case 0 : case 1 : a [ o ] = ( float ) twice ( i ) ; break ; default : ; } for ( int m = 0 ; m < 2 ; ++ m ) { if ( m ) continue ; else break ; } { int z = j , w = 2 ; j = z + w ; } S t ; t . a = j ; const char * s = "ab" "cd" ; j = s [ 0 ] + t . a ; a [ o ] += ( i > 1 ) ? sizeof ( j ) : ( int ) 2.5f ; helper ( a , N ) ; goto done ; done : ; } } }'),
 ]
 def lit(t):
     if t == "NL": return '"\\n"'
